@@ -1384,21 +1384,23 @@ class Session(AbstractSession):
                      val.is_field_parameter(right_field_sources[0]) and \
                      left_field_sinks is not None and \
                      val.is_field_parameter(left_field_sinks[0]) and \
-                     left_to_right_map is not None
+                     val.is_field_parameter(left_to_right_map)
 
         result = None
         has_unmapped = None
+        if streamable:
+            # the streamed form: keys, payloads, sinks and the map are all fields. The map is generated
+            # by the maintained streaming generators (the deprecated *_streamed_old helper drops the
+            # trailing unmatched left rows, loses the matches of a run of left keys split by a chunk
+            # end and cannot handle empty keys) and written to 'left_to_right_map'
+            left_f = val.field_from_parameter(self, 'left_on', left_on)
+            right_f = val.field_from_parameter(self, 'right_on', right_on)
+            map_f = val.field_from_parameter(self, 'left_to_right_map', left_to_right_map)
         if left_unique == False:
             if right_unique == False:
                 raise ValueError("Right key must not have duplicates")
             else:
                 if streamable:
-                    # the map is generated by the maintained streaming generator: the deprecated
-                    # *_streamed_old helper drops the trailing unmatched left rows, loses the matches
-                    # of a run of left keys split by a chunk end and cannot handle empty keys
-                    left_f = val.field_from_parameter(self, 'left_on', left_on)
-                    right_f = val.field_from_parameter(self, 'right_on', right_on)
-                    map_f = val.field_from_parameter(self, 'left_to_right_map', left_to_right_map)
                     ops.generate_ordered_map_to_left_right_unique_streamed(
                         left_f, right_f, map_f, ops.INVALID_INDEX, rdtype=map_f.data.dtype)
                     result = left_to_right_map
@@ -1413,11 +1415,16 @@ class Session(AbstractSession):
             if right_unique == False:
                 raise ValueError("Right key must not have duplicates")
             else:
-                result = np.zeros(len(left_on), dtype=np.int64)
-                left_data = val.array_from_parameter(self, "left_on", left_on)
-                right_data = val.array_from_parameter(self, "right_on", right_on)
-                has_unmapped = ops.generate_ordered_map_to_left_both_unique(
-                    left_data, right_data, result, ops.INVALID_INDEX)
+                if streamable:
+                    ops.generate_ordered_map_to_left_both_unique_streamed(
+                        left_f, right_f, map_f, ops.INVALID_INDEX, rdtype=map_f.data.dtype)
+                    result = left_to_right_map
+                else:
+                    result = np.zeros(len(left_on), dtype=np.int64)
+                    left_data = val.array_from_parameter(self, "left_on", left_on)
+                    right_data = val.array_from_parameter(self, "right_on", right_on)
+                    has_unmapped = ops.generate_ordered_map_to_left_both_unique(
+                        left_data, right_data, result, ops.INVALID_INDEX)
 
         if streamable:
             self._streaming_map_fields(result, right_field_sources, left_field_sinks,
